@@ -38,7 +38,7 @@ def plan(tier, seed):
     for i in range(4 if q else 16):
         specs.append(dict(kind='history', seed=seed, shard=i, n=150 if q else 6000))
     for i in range(6 if q else 24):
-        specs.append(dict(kind='isolation', seed=seed, shard=i, n=12 if q else 400, rand=120 if q else 5000))
+        specs.append(dict(kind='isolation', seed=seed, shard=i, n=12 if q else 150, rand=120 if q else 3000))
     return specs
 
 
